@@ -5,6 +5,7 @@ package main
 // operations; the same histories are replayed on the Lean model by the oracle.
 
 import (
+	"bytes"
 	"encoding/binary"
 	"fmt"
 	"io"
@@ -188,11 +189,22 @@ func runHistory(h *history) ([]opResult, error) {
 	return res, nil
 }
 
-// exchange: the dialler writes (id, nonce), the acceptor checks the id and echoes nonce+1.
+// exchange checks that the two ends of one brokered connection are each other's peers and that bytes arrive complete
+// and in order, in both directions.  The mode is a function of the id, so both ends agree on it:
+//   id%3 == 0: the dialler speaks first: (id, nonce) -> echo nonce+1
+//   id%3 == 1: the ACCEPTOR speaks first, right after Accept returned (its bytes travel right behind the ack)
+//   id%3 == 2: acceptor first, then 300 KiB of patterned bulk in each direction at once (more than one yamux window)
+// role "latebulk": after the handshake both idle 5.3 s, then the acceptor writes 1 MiB while the dialler starts
+// reading late (the write has to wait for window space long after Accept).
 func exchange(c net.Conn, o hop, idx int) string {
-	c.SetDeadline(time.Now().Add(3 * time.Second))
+	// no deadline of ours on the connection (it would hide one left behind by the broker): a watchdog closes it instead
+	wd := time.AfterFunc(25*time.Second, func() { c.Close() })
+	defer wd.Stop()
+	mode := int(o.id % 3)
+	dial := o.kind == 'd'
+	speaksFirst := (mode == 0) == dial
 	var buf [8]byte
-	if o.kind == 'd' {
+	if speaksFirst {
 		binary.LittleEndian.PutUint32(buf[:4], o.id)
 		binary.LittleEndian.PutUint32(buf[4:], uint32(1000+idx))
 		if _, err := c.Write(buf[:]); err != nil {
@@ -205,18 +217,69 @@ func exchange(c net.Conn, o hop, idx int) string {
 		if binary.LittleEndian.Uint32(e[:]) != uint32(1000+idx)+1 {
 			return "wrong-echo"
 		}
-		return ""
+	} else {
+		if _, err := io.ReadFull(c, buf[:]); err != nil {
+			return "nodata:" + errClass(err)
+		}
+		if got := binary.LittleEndian.Uint32(buf[:4]); got != o.id {
+			return fmt.Sprintf("%c-of-%d-got-stream-for-%d", o.kind, o.id, got)
+		}
+		var e [4]byte
+		binary.LittleEndian.PutUint32(e[:], binary.LittleEndian.Uint32(buf[4:])+1)
+		if _, err := c.Write(e[:]); err != nil {
+			return "echo-write:" + errClass(err)
+		}
 	}
-	if _, err := io.ReadFull(c, buf[:]); err != nil {
-		return "nodata:" + errClass(err)
+	pattern := func(n int, salt byte) []byte {
+		p := make([]byte, n)
+		for i := range p {
+			p[i] = byte(i*7+i/251) ^ salt
+		}
+		return p
 	}
-	if got := binary.LittleEndian.Uint32(buf[:4]); got != o.id {
-		return fmt.Sprintf("accepted-%d-got-stream-for-%d", o.id, got)
+	if mode == 2 {
+		const n = 300 << 10
+		mySalt, peerSalt := byte(0x5a), byte(0xa5)
+		if dial {
+			mySalt, peerSalt = peerSalt, mySalt
+		}
+		werr := make(chan error, 1)
+		go func() { _, err := c.Write(pattern(n, mySalt)); werr <- err }()
+		got := make([]byte, n)
+		if _, err := io.ReadFull(c, got); err != nil {
+			return "bulk-read:" + errClass(err)
+		}
+		if !bytes.Equal(got, pattern(n, peerSalt)) {
+			return "bulk-corrupted"
+		}
+		if err := <-werr; err != nil {
+			return "bulk-write:" + errClass(err)
+		}
 	}
-	var e [4]byte
-	binary.LittleEndian.PutUint32(e[:], binary.LittleEndian.Uint32(buf[4:])+1)
-	if _, err := c.Write(e[:]); err != nil {
-		return "echo-write:" + errClass(err)
+	if o.role == "latebulk" {
+		const n = 1 << 20
+		time.Sleep(5300 * time.Millisecond)
+		if dial {
+			time.Sleep(300 * time.Millisecond) // let the writer run into the window limit
+			got := make([]byte, n)
+			if _, err := io.ReadFull(c, got); err != nil {
+				return "latebulk-read:" + errClass(err)
+			}
+			if !bytes.Equal(got, pattern(n, 0x33)) {
+				return "latebulk-corrupted"
+			}
+			if _, err := c.Write([]byte{1}); err != nil {
+				return "latebulk-ack-write:" + errClass(err)
+			}
+		} else {
+			if _, err := c.Write(pattern(n, 0x33)); err != nil {
+				return "latebulk-write:" + errClass(err)
+			}
+			var a [1]byte
+			if _, err := io.ReadFull(c, a[:]); err != nil {
+				return "latebulk-ack:" + errClass(err)
+			}
+		}
 	}
 	return ""
 }
@@ -329,7 +392,7 @@ func brokerPredicate(h *history, res []opResult) string {
 			return "FAIL:pairing:" + r.cross
 		}
 		switch o.role {
-		case "matched":
+		case "matched", "latebulk":
 			if r.res != "ok" {
 				return fmt.Sprintf("FAIL:matched-%c-%s", o.kind, r.res)
 			}
@@ -499,6 +562,8 @@ func init() {
 				q := r.fork(uint64(i))
 				hs = append(hs, compose(fmt.Sprintf("m%d", i), q, matched, 1+q.intn(8), false))
 			}
+			// a bulk write long after Accept, in both directions: complete, in order, no left-over deadline
+			hs = append(hs, &history{name: "late-bulk", ops: []hop{{0, 'a', 30, 0, "latebulk"}, {50, 'd', 30, 0, "latebulk"}, {0, 'd', 31, 1, "latebulk"}, {80, 'a', 31, 1, "latebulk"}}})
 			return hs, nil
 		})
 	})
